@@ -113,6 +113,10 @@ pub trait Prop: Sync {
 	fn isolated(&self) -> bool {
 		false
 	}
+	/// counters (fault kinds fired, rare conditions reached) that a healthy run must see above zero
+	fn expected_probes(&self) -> Vec<&'static str> {
+		vec![]
+	}
 	fn components(&self) -> Value {
 		json!({
 			"real": ["serde_avro_fast (path dependency on /repo/serde_avro_fast, all codec features)", "serde", "flate2/miniz_oxide", "bzip2 (libbz2)", "snap", "crc32fast", "xz2 (liblzma)", "zstd (libzstd)"],
@@ -318,9 +322,89 @@ pub fn minimise<P: Prop>(p: &P, scn: P::Scn, kind: &str) -> (P::Scn, u64) {
 }
 
 /// Main entry: run a tier of a property. Returns the process exit code.
+/// Supervisor: the check proper runs in a child process whose worker threads publish the run index they are
+/// executing in a slot file; if the child is killed (abort on an absurd allocation, stack overflow, segfault),
+/// the in-flight scenarios are regenerated from (seed, run) and replayed one by one in further children to find
+/// the killer, which is reported as a violation with its replay file.
 pub fn run_check<P: Prop>(p: &P, tier: Tier) -> i32 {
+	if p.isolated() || std::env::var("AVROSIM_INNER").is_ok() {
+		return run_check_inner(p, tier);
+	}
+	let seed = seed_from_env();
+	let slots_path = std::env::temp_dir().join(format!("avrosim-slots-{}-{}", p.id(), std::process::id()));
+	let _ = std::fs::write(&slots_path, vec![0u8; 8 * 64]);
+	let status = std::process::Command::new(self_exe())
+		.args(["check", p.id(), tier.name()])
+		.env("AVROSIM_INNER", "1")
+		.env("AVROSIM_SLOTS", &slots_path)
+		.status();
+	let code = match status {
+		Ok(st) => match st.code() {
+			Some(c @ (0 | 1 | 2)) => c,
+			other => {
+				// the child died: which scenarios were in flight?
+				let cause = signal_of(&st).map_or_else(|| format!("exit{other:?}"), |s| format!("signal{s}"));
+				let bytes = std::fs::read(&slots_path).unwrap_or_default();
+				let mut runs: Vec<u64> = bytes.chunks_exact(8).map(|c| u64::from_le_bytes(c.try_into().unwrap())).filter(|r| *r != 0).map(|r| r - 1).collect();
+				runs.sort();
+				runs.dedup();
+				eprintln!("check process for {} died ({cause}); scenarios in flight: {runs:?}", p.id());
+				let replay_dir = verif_root().join("replays");
+				let _ = std::fs::create_dir_all(&replay_dir);
+				let mut code = 2;
+				for run in runs {
+					let scn = generate(p, seed, tier, run);
+					let path = replay_dir.join(format!("{}-{}-{}.json", p.id(), seed, run));
+					let rf = ReplayFile {
+						property: p.id().to_string(),
+						seed,
+						run,
+						expect_kind: format!("process-killed:{cause}"),
+						detail: "the process executing this scenario was killed".into(),
+						scenario: scn,
+					};
+					let _ = std::fs::write(&path, serde_json::to_string_pretty(&rf).unwrap());
+					match replay_in_child(p.id(), &path) {
+						Ok(Some(k)) if k.starts_with("process-killed") => {
+							println!("violation kind={k} run={run} detail=executing this scenario kills the process (abort / stack overflow / crash); confirmed in a fresh process");
+							println!("VIOLATION property={} replay={}", p.id(), path.display());
+							code = 1;
+							break;
+						}
+						_ => {
+							let _ = std::fs::remove_file(&path);
+						}
+					}
+				}
+				if code == 2 {
+					eprintln!("HARNESS-ERROR: check process died ({cause}) and no in-flight scenario reproduces it");
+				}
+				code
+			}
+		},
+		Err(e) => {
+			eprintln!("HARNESS-ERROR: cannot spawn the check process: {e}");
+			2
+		}
+	};
+	let _ = std::fs::remove_file(&slots_path);
+	code
+}
+
+fn publish_slot(file: &Option<std::fs::File>, worker: usize, run_plus_one: u64) {
+	use std::os::unix::fs::FileExt;
+	if let Some(f) = file {
+		if worker < 64 {
+			let _ = f.write_at(&run_plus_one.to_le_bytes(), 8 * worker as u64);
+		}
+	}
+}
+
+fn run_check_inner<P: Prop>(p: &P, tier: Tier) -> i32 {
 	let seed = seed_from_env();
 	let workers = workers_from_env();
+	let slot_file: Option<std::fs::File> = std::env::var("AVROSIM_SLOTS").ok().and_then(|p| std::fs::OpenOptions::new().write(true).open(p).ok());
+	let slot_file = &slot_file;
 	let (runs, wall_cap) = p.budget(tier);
 	let runs = std::env::var("VERIF_RUNS").ok().and_then(|s| s.parse().ok()).unwrap_or(runs);
 	let t0 = Instant::now();
@@ -384,6 +468,7 @@ pub fn run_check<P: Prop>(p: &P, tier: Tier) -> i32 {
 						let scn = generate(p, seed, tier, run);
 						slot.1.store(t0.elapsed().as_millis() as u64, Ordering::Relaxed);
 						slot.0.store(run + 1, Ordering::Relaxed);
+						publish_slot(slot_file, w, run + 1);
 						let o = exec_caught(p, &scn);
 						slot.0.store(0, Ordering::Relaxed);
 						// in-process determinism sample: every 50th run is executed twice
@@ -541,7 +626,10 @@ pub fn run_check<P: Prop>(p: &P, tier: Tier) -> i32 {
 	let wall = t0.elapsed().as_secs_f64();
 	// evidence
 	let counters: serde_json::Map<String, Value> = acc.counters.iter().map(|(k, v)| (k.to_string(), json!(v))).collect();
-	let zero_probes: Vec<&str> = vec![];
+	let zero_probes: Vec<&str> = p.expected_probes().into_iter().filter(|n| !acc.counters.contains_key(n)).collect();
+	if !zero_probes.is_empty() {
+		println!("[{}] note: reach probes at zero in this run: {:?}", p.id(), zero_probes);
+	}
 	let evidence = json!({
 		"property_id": p.id(),
 		"tier": tier.name(),
